@@ -364,8 +364,11 @@ impl From<embedded_graphics_core::pixelcolor::Rgb565> for Color {
         } else if rgb == RgbColor::WHITE {
             Color::White
         } else {
-            // choose closest color
-            if (rgb.r() as u16 + rgb.g() as u16 + rgb.b() as u16) > 255 * 3 / 2 {
+            // choose closest color: brighter than half of this depth's maximal channel sum
+            let max_sum = embedded_graphics_core::pixelcolor::Rgb565::MAX_R as u16
+                + embedded_graphics_core::pixelcolor::Rgb565::MAX_G as u16
+                + embedded_graphics_core::pixelcolor::Rgb565::MAX_B as u16;
+            if (rgb.r() as u16 + rgb.g() as u16 + rgb.b() as u16) > max_sum / 2 {
                 Color::White
             } else {
                 Color::Black
@@ -394,8 +397,11 @@ impl From<embedded_graphics_core::pixelcolor::Rgb555> for Color {
         } else if rgb == RgbColor::WHITE {
             Color::White
         } else {
-            // choose closest color
-            if (rgb.r() as u16 + rgb.g() as u16 + rgb.b() as u16) > 255 * 3 / 2 {
+            // choose closest color: brighter than half of this depth's maximal channel sum
+            let max_sum = embedded_graphics_core::pixelcolor::Rgb555::MAX_R as u16
+                + embedded_graphics_core::pixelcolor::Rgb555::MAX_G as u16
+                + embedded_graphics_core::pixelcolor::Rgb555::MAX_B as u16;
+            if (rgb.r() as u16 + rgb.g() as u16 + rgb.b() as u16) > max_sum / 2 {
                 Color::White
             } else {
                 Color::Black
